@@ -17,9 +17,10 @@
   positivity of the translated molar volume (Lin–Duan / Peneloux shift is empirical).
 -/
 import TamocV.Lemmas.C01
+import TamocV.Lemmas.EosRefine
 
 namespace TamocV.Props.C01
-open TamocV.Model.Eos TamocV.Lemmas.Eos TamocV.Lemmas.C01 Finset
+open TamocV.Model.Eos TamocV.Lemmas.Eos TamocV.Lemmas.C01 TamocV.Lemmas.EosRefine TamocV.Gen Finset
 
 /-- contract of the cubic root finder: the real entries of `roots` are exactly the real roots -/
 def RootsOf (A B : ℝ) (roots : List (ℝ × ℝ)) : Prop :=
@@ -187,6 +188,96 @@ theorem gas_not_denser (n : ℕ) (T P Zg Zl : ℝ) (y M vt : ℕ → ℝ) (hT : 
   have : 1 / (Zg * RU * T / P - ∑ i ∈ range n, y i * vt i) ≤ 1 / (Zl * RU * T / P - ∑ i ∈ range n, y i * vt i) :=
     one_div_le_one_div_of_le hnu (by linarith)
   exact mul_le_mul_of_nonneg_right this hM
+
+/-! ### Refinement: the hand model is refined by the code REGENERATED from dbm_p.py on every run
+
+`Gen.EosFullPy.coefs` / `z_pr` are produced by translate/py2ir2.py from /repo/tamoc/dbm_p.py (and equal the
+Fortran transcription by `Props.C08.pair_full_*`).  The theorems above are about `Model.Eos`; the two theorems
+below carry them over to the regenerated definitions, so that a change of dbm_p.coefs / z_pr that invalidates
+the hand model breaks a proof here (and not only the value correspondence of the harness).
+Partial: the group-contribution branch (calc_delta > 0: in-place double loop over the δ matrix) is not refined;
+there the tie of `Model.Eos.deltaUsed` to the code is the correspondence run. -/
+
+/-- **Refinement (group contributions off)**: every output of the `coefs` regenerated from dbm_p.py equals the
+    corresponding output of the hand model `Model.Eos.coefs`, for all inputs of consistent lengths. -/
+theorem coefs_refines_no_gc (T P : ℝ) (m M Pc Tc w : List ℝ) (δ A B G : List (List ℝ)) (cd : ℝ) (n : ℕ)
+    (hm : m.length = n) (hM : M.length = n) (hPc : Pc.length = n) (hTc : Tc.length = n) (hδ : δ.length = n)
+    (hcd : cd ≤ 0) :
+    let g := EosFullPy.coefs T P m M Pc Tc w δ A B G cd
+    let h := TamocV.Model.Eos.coefs n T P (ofL m) (ofL M) (ofL Pc) (ofL Tc) (ofL w) false (ofM G) (ofM A) (ofM B) (ofM δ)
+    g.1 = h.A ∧ g.2.1 = h.B ∧ (∀ i, i < n → g.2.2.1.getD i 0 = h.Ap i) ∧ (∀ i, i < n → g.2.2.2.1.getD i 0 = h.Bp i)
+      ∧ (∀ i, i < n → g.2.2.2.2.getD i 0 = h.yk i) := by
+  intro g h
+  refine ⟨coefs_A_refines T P m M Pc Tc w δ A B G cd n hm hM hPc hTc hcd,
+    coefs_B_refines T P m M Pc Tc w δ A B G cd n hm hM hPc hTc, ?_, ?_, ?_⟩
+  · -- Ap
+    intro i hi
+    have hnc : ¬ ((0:ℝ) < cd) := not_lt.mpr hcd
+    subst hm
+    simp only [g, h, EosFullPy.coefs, TamocV.Model.Eos.coefs, mix, sumN_eq, Nat.sub_zero, Num.real_ofSci, Num.real_sum,
+      Num.real_npow, Num.real_rpow, Num.real_zero, Num.real_one, Num.real_ofNat, if_neg hnc, deltaUsed, Bool.false_and,
+      Bool.false_eq_true, if_false, mu_list_eq, foldl_add_range', foldl_set_replicate]
+    simp only [← aList.eq_1]
+    have h00 : (0.0:ℝ) = 0 := by norm_num
+    have h10 : (1.0:ℝ) = 1 := by norm_num
+    have h20 : (2.0:ℝ) = 2 := by norm_num
+    rw [h00, h10, h20, getD_range_map _ _ i hi, aT_fold_eq T m M Pc Tc w δ hM hPc hTc,
+      aList_getD T Pc Tc w _ i hPc hTc hi]
+    congr 2
+    -- the inner sum over j
+    have hy := mole_fraction_length m M _ rfl hM
+    have hal := aList_length T Pc Tc w m.length hPc hTc
+    have hal2 : ((aList T Pc Tc w m.length).map fun x => x ^ ((1:ℝ) / 2)).length = m.length := by simp [hal]
+    have hz1 : (List.zipWith (fun x y => x * y) (EosFullPy.mole_fraction m M)
+        ((aList T Pc Tc w m.length).map fun x => x ^ ((1:ℝ) / 2))).length = m.length := by simp [hy, hal]
+    have hcol : ((δ.map fun r => r.getD i 0).map fun y => (1:ℝ) - y).length = m.length := by simp [hδ]
+    have hz2 : (List.zipWith (fun x y => x * y) (List.zipWith (fun x y => x * y) (EosFullPy.mole_fraction m M)
+        ((aList T Pc Tc w m.length).map fun x => x ^ ((1:ℝ) / 2))) ((δ.map fun r => r.getD i 0).map fun y => (1:ℝ) - y)).length
+        = m.length := by simp [hy, hal, hδ]
+    rw [list_sum_eq_range _ _ hz2]
+    apply Finset.sum_congr rfl
+    intro j hj
+    have hj' := mem_range.mp hj
+    rw [getD_zipWith _ _ _ j hz1 hcol hj', getD_zipWith _ _ _ j hy hal2 hj', getD_map _ _ j hal hj',
+      mole_fraction_refines m M _ j rfl hM hj', aList_getD T Pc Tc w _ j hPc hTc hj', col_getD δ _ i j hδ hj']
+  · -- Bp
+    intro i hi
+    subst hm
+    simp only [g, h, EosFullPy.coefs, TamocV.Model.Eos.coefs, mix, sumN_eq, Nat.sub_zero, Num.real_ofSci, Num.real_sum]
+    have hb : (List.zipWith (fun x y => x / y) (List.map (fun y => (0.0778:ℝ) * 8.31451 * y) Tc) Pc).length = m.length := by
+      simp [hTc, hPc]
+    have hy := mole_fraction_length m M _ rfl hM
+    have hz : (List.zipWith (fun x y => x * y) (EosFullPy.mole_fraction m M)
+        (List.zipWith (fun x y => x / y) (List.map (fun y => (0.0778:ℝ) * 8.31451 * y) Tc) Pc)).length = m.length := by
+      simp [hy, hb]
+    rw [getD_map _ _ i hb hi, bk_list_getD Tc Pc _ i hTc hPc hi, list_sum_eq_range _ _ hz]
+    congr 1
+    apply Finset.sum_congr rfl
+    intro j hj
+    have hj' := mem_range.mp hj
+    rw [getD_zipWith _ _ _ j hy hb hj', mole_fraction_refines m M _ j rfl hM hj', bk_list_getD Tc Pc _ j hTc hPc hj']
+  · -- yk
+    intro i hi
+    simp only [g, h, EosFullPy.coefs, TamocV.Model.Eos.coefs, mix]
+    exact mole_fraction_refines m M n i hm hM hi
+
+/-- **The root selection theorem holds of the regenerated `z_pr`**: if the root finder handed to the regenerated
+    routine returns the three roots `(r_k, i_k)` and these are the roots of the mixture's cubic (contract), the
+    compressibility factors that the regenerated `z_pr` reports are real roots of that cubic above the co-volume
+    limit, gas ≥ liquid, and equal when only one physical root exists. -/
+theorem gen_reported_roots_physical (cr : List ℝ → List ℝ × List ℝ) (T P : ℝ) (m M Pc Tc w : List ℝ)
+    (δ A B G : List (List ℝ)) (cd r0 r1 r2 i0 i1 i2 : ℝ)
+    (hcr : ∀ p, cr p = ([r0, r1, r2], [i0, i1, i2])) :
+    let c := EosFullPy.coefs T P m M Pc Tc w δ A B G cd
+    let roots := [(r0, i0), (r1, i1), (r2, i2)]
+    0 < c.2.1 → RootsOf c.1 c.2.1 roots →
+    ∃ zg zl, (EosFullPy.z_pr cr T P m M Pc Tc w δ A B G cd).1 = [[zg], [zl]] ∧
+      cubic c.1 c.2.1 zg = 0 ∧ cubic c.1 c.2.1 zl = 0 ∧ c.2.1 < zl ∧ zl ≤ zg ∧
+      ((∀ z ∈ roots, z.2 = 0 → c.2.1 < z.1 → ∀ w' ∈ roots, w'.2 = 0 → c.2.1 < w'.1 → z.1 = w'.1) → zl = zg) := by
+  intro c roots hB hr
+  have hsel := z_pr_select_refines cr T P m M Pc Tc w δ A B G cd r0 r1 r2 i0 i1 i2 hcr
+  have hp := reported_roots_physical c.1 c.2.1 roots hB hr
+  exact ⟨(selectZ c.2.1 roots).1, (selectZ c.2.1 roots).2, hsel, hp.1, hp.2.1, hp.2.2.1, hp.2.2.2.1, hp.2.2.2.2.2⟩
 
 /-! ### non-vacuity: a concrete state satisfying the hypotheses -/
 
